@@ -130,7 +130,7 @@ def jobs(C, tier):
            pair_job(C, 'exo_amo', 'exo', 'amo', 2, 4, 10, 12, 6, open_roots=True, unwind=3)]
     out.append(pair_job(C, 'exo_exo', 'exo', 'exo', 2, 6, 16, 16, 6, open_roots=True, unwind=3))
     out.append(pair_job(C, 'amo_amo', 'amo', 'amo', 2, 2, 6, 8, 6, open_roots=True, unwind=3))
-    if True:
+    if tier == 'thorough':   # 12 minutes and ~40 GB on its own: too long for the check meant to run on every change
         # the root-true shortcut of the cardinality constructs interacting with the cache: symbolic root values, <= 3 literals
         out.append(pair_job(C, 'amo_amo_root_values', 'amo', 'amo', 3, 2, 8, 8, 8, open_roots=False, unwind=4))
     return out
